@@ -375,7 +375,8 @@ def do_step_multiple(case, ob, site):
     # both documented key kinds: wire names and the WireVectors themselves
     key = (lambda w: w) if case.get('keys') == 'wire' else (lambda w: w.name)
     provided = {key(w): [SymInt.mk(v.inp(w.name, t, w.bitwidth), False) for t in range(K)] for w in ins}
-    expected = {key(w): [SymInt.mk(z3.BitVec('exp_%s_%d' % (w.name, t), w.bitwidth), False) for t in range(K)] for w in outs}
+    # expectations may be any non-negative integer, also ones the wire cannot hold (those can never match)
+    expected = {key(w): [SymInt.mk(z3.BitVec('exp_%s_%d' % (w.name, t), w.bitwidth + 2), False) for t in range(K)] for w in outs}
     if not provided:
         return ob.fact('skipped-no-inputs', True)
     # reference: the same steps one at a time
@@ -434,7 +435,7 @@ def do_step_multiple(case, ob, site):
                 if (t, w.name) in listed:
                     etok, atok = listed[(t, w.name)]
                     goals.append(('reported-pair-really-mismatches:%s@%d' % (w.name, t), differs, site + ':report-extra'))
-                    goals.append(('reported-expected-value:%s@%d' % (w.name, t), to_bv(tok_value(etok), w.bitwidth + 1) == to_bv(ev, w.bitwidth + 1), site + ':report-values'))
+                    goals.append(('reported-expected-value:%s@%d' % (w.name, t), to_bv(tok_value(etok), w.bitwidth + 3) == to_bv(ev, w.bitwidth + 3), site + ':report-values'))
                     goals.append(('reported-actual-value:%s@%d' % (w.name, t), to_bv(tok_value(atok), w.bitwidth + 1) == to_bv(av, w.bitwidth + 1), site + ':report-values'))
                 else:
                     goals.append(('unreported-pair-matches:%s@%d' % (w.name, t), z3.Not(differs), site + ':report-missing'))
